@@ -179,6 +179,7 @@ func OpenBucket(urlStr string, bucketName string, mode OpenMode) (b *Bucket, err
 			if createdNew {
 				_ = bucket.CloseAndDelete(ctx)
 			} else {
+				bucket.expManager.stop()
 				bucket.mutex.Lock()
 				bucket._closeSqliteDB()
 				bucket.mutex.Unlock()
